@@ -66,6 +66,7 @@ func (table *CollisionTable) dump(path string) {
 		logger.Errorf("unmarshal yaml faild %s: %s", path, err.Error())
 		return
 	}
+	verifPoint("fs.writefile", path, content)
 	err = ioutil.WriteFile(path, content, 0644)
 	if err != nil {
 		logger.Errorf("write yaml failed %s: %s", path, err.Error())
